@@ -1,146 +1,300 @@
-# Real charmm modifications on real charmm residues through RepairGraph + CanonicalizeModifications
-# (oracle only; executed by c14.py in its namespace).
+# Real charmm residues with the modifications the charmm force field ships (plus one synthetic modification
+# spanning two residues: charmm ships none) through RepairGraph + CanonicalizeModifications, compared with
+# the Lean model (same protocol as the toy streams), the generic oracle of c14.py and expectations that come
+# from how the case was built.  Executed by c14.py in its namespace.
 import vermouth.forcefield as _vff
+
+CH_RES = ['GLY', 'ALA', 'SER', 'THR', 'ASP', 'GLU', 'VAL', 'HIS', 'TYR', 'LYS']
+
+
+def charmm_ff():
+    ff = copy.deepcopy(_vff.get_native_force_field('charmm'))
+    # synthetic: a carbon bridging the NZ of two lysines (two anchors of the same name in two residues)
+    mod = Modification(force_field=ff)
+    mod.name = 'XLINK-NZ'
+    mod.add_node('NZ', atomname='NZ', element='N', PTM_atom=False)
+    mod.add_node('CX', atomname='CX', element='C', PTM_atom=True, replace={'atomname': 'CX1'})
+    mod.add_node('NZb', atomname='NZ', element='N', PTM_atom=False)
+    mod.add_edges_from([('NZ', 'CX'), ('CX', 'NZb')])
+    ff.modifications['XLINK-NZ'] = mod
+    return ff
 
 
 def charmm_case(rng, ff):
-    seq = [rng.choice(['GLY', 'ALA', 'SER', 'ASP', 'GLU', 'VAL', 'HIS']) for _ in range(rng.randint(1, 3))]
+    seq = [rng.choice(CH_RES) for _ in range(rng.randint(1, 3))]
+    if rng.random() < 0.25:
+        seq[rng.randrange(len(seq))] = 'LYS'
+        seq.append('LYS')
+    n = len(seq)
+    annotated = {}            # resid -> list of modification names requested through `modification`
+    t = rng.random()
+    if t < 0.12:
+        annotated[n] = ['C-ter']
+    elif t < 0.2:
+        annotated[1] = ['N-ter']
+    elif t < 0.25 and n >= 2:
+        annotated[1] = ['N-ter']
+        annotated[n] = ['COOH-ter']
+    drop_hh = set()
+    phos = [r for r, x in enumerate(seq, start=1) if x == 'TYR' and rng.random() < 0.7 and not annotated]
     mol = Molecule(force_field=ff)
     key = 0
     idx = []
     for r, resname in enumerate(seq, start=1):
         block = ff.blocks[resname]
         names = {}
-        for n in block.nodes:
-            an = block.nodes[n]['atomname']
-            mol.add_node(key, atomname=an, resname=resname, resid=r, chain='A', element=an[0], atomid=key + 1)
-            names[n] = key
+        for nn in block.nodes:
+            an = block.nodes[nn]['atomname']
+            if an == 'HH' and r in drop_hh:
+                continue
+            kw = {'modification': list(annotated[r])} if r in annotated else {}
+            mol.add_node(key, atomname=an, resname=resname, resid=r, chain='A', element=an[0], atomid=key + 1, **kw)
+            names[nn] = key
             key += 1
         for u, v in block.edges:
-            mol.add_edge(names[u], names[v])
-        idx.append({block.nodes[n]['atomname']: k for n, k in names.items()})
+            if u in names and v in names:
+                mol.add_edge(names[u], names[v])
+        idx.append({block.nodes[nn]['atomname']: k for nn, k in names.items()})
         if r > 1:
             mol.add_edge(idx[r - 2]['C'], idx[r - 1]['N'])
-    expect = {}      # resid -> set of modification names
-    exact, unknown = [], []
+    att = []       # attachments: dict(atoms, mod (name or None), key (sorted anchor resids), resids)
+    silently = []  # atoms RepairGraph itself removes (extra atoms of a residue with a requested modification)
 
-    def attach(r, anchor, atoms, modname):
+    def attach(r, anchors, atoms, modname, names=None):
+        """atoms: [(element, parent)] parent None = bonded to the anchor(s); names: canonical names or None"""
         nonlocal key
-        prev = idx[r - 1][anchor]
         new = []
-        for el, parent in atoms:
-            mol.add_node(key, atomname='X%s%d' % (el, key), resname=seq[r - 1], resid=r, chain='A', element=el,
-                         atomid=key + 1)
-            mol.add_edge(prev if parent is None else new[parent], key)
+        for j, (el, parent) in enumerate(atoms):
+            kw = {'modification': list(annotated[r])} if r in annotated else {}
+            mol.add_node(key, atomname=(names[j] if names else 'X%s%d' % (el, key)), resname=seq[r - 1], resid=r,
+                         chain='A', element=el, atomid=key + 1, **kw)
+            if parent is None:
+                for rr, an in anchors:
+                    mol.add_edge(idx[rr - 1][an], key)
+            else:
+                mol.add_edge(new[parent], key)
             new.append(key)
             key += 1
-        if modname is None:
-            unknown.extend(new)
-        else:
-            expect.setdefault(r, set()).add(modname)
-            exact.extend((k, modname) for k in new)
+        att.append({'atoms': new, 'mod': modname, 'key': tuple(sorted(rr for rr, _ in anchors)), 'res': r})
+        return new
 
-    n = len(seq)
-    t = rng.random()
-    if t < 0.5:
-        attach(1, 'N', [('H', None), ('H', None)], 'N-ter')
-    elif t < 0.7:
-        attach(1, 'N', [('H', None)], 'NH2-ter')
-    t = rng.random()
-    if t < 0.4:
-        attach(n, 'C', [('O', None)], 'C-ter')
-    elif t < 0.7:
-        attach(n, 'C', [('O', None), ('H', 0)], 'COOH-ter')
+    ME = [('C', None), ('H', 0), ('H', 0), ('H', 0)]
+    # N-terminus
+    if 'N-ter' in annotated.get(1, []):
+        attach(1, [(1, 'N')], [('H', None), ('H', None)], 'N-ter', names=['HN2', 'HN3'])
+        att[-1]['annot'] = True
+    else:
+        t = rng.random()
+        if t < 0.35:
+            attach(1, [(1, 'N')], [('H', None), ('H', None)], 'N-ter')
+        elif t < 0.5:
+            attach(1, [(1, 'N')], [('H', None)], 'NH2-ter')
+        elif t < 0.62 and not annotated:
+            attach(1, [(1, 'N')], ME, 'NCAP-ter')
+    # C-terminus
+    if n in annotated and annotated[n][0] in ('C-ter', 'COOH-ter'):
+        if annotated[n][0] == 'C-ter':
+            attach(n, [(n, 'C')], [('O', None)], 'C-ter', names=['OXT'])
+        else:
+            attach(n, [(n, 'C')], [('O', None), ('H', 0)], 'COOH-ter', names=['OXT', 'HO'])
+        att[-1]['annot'] = True
+    else:
+        t = rng.random()
+        if t < 0.3:
+            attach(n, [(n, 'C')], [('O', None)], 'C-ter')
+        elif t < 0.5:
+            attach(n, [(n, 'C')], [('O', None), ('H', 0)], 'COOH-ter')
+        elif t < 0.62 and not annotated:
+            attach(n, [(n, 'C')], [('O', None), ('C', 0), ('H', 1), ('H', 1), ('H', 1)], 'CCAP-ter')
+    # side chains
+    lys = [r for r, x in enumerate(seq, start=1) if x == 'LYS']
+    bridged = set()
+    if len(lys) >= 2 and rng.random() < 0.6:
+        a, b = rng.sample(lys, 2)
+        attach(a, [(a, 'NZ'), (b, 'NZ')], [('C' if rng.random() < 0.8 else 'S', None)], 'XLINK-NZ')
+        if mol.nodes[att[-1]['atoms'][0]]['element'] != 'C':
+            att[-1]['mod'] = None
+        bridged = {a, b}
     for r, resname in enumerate(seq, start=1):
         if resname == 'ASP' and rng.random() < 0.5:
-            attach(r, 'OD2', [('H', None)], 'ASP-HD2')
+            which = rng.choice(['1', '2'])
+            attach(r, [(r, 'OD' + which)], [('H', None)], 'ASP-HD' + which)
         if resname == 'GLU' and rng.random() < 0.5:
-            attach(r, rng.choice(['OE1', 'OE2']), [('H', None)], None if False else 'GLU-HE')
+            which = rng.choice(['1', '2'])
+            attach(r, [(r, 'OE' + which)], [('H', None)], 'GLU-HE' + which)
         if resname == 'HIS' and rng.random() < 0.7:
             # the template has HE2 on NE2; one more H on ND1 is HIS-HD (never HIS-HP, whose HE2 is an added atom)
-            attach(r, 'ND1', [('H', None)], 'HIS-HD')
-        if resname in ('ALA', 'SER', 'VAL') and rng.random() < 0.25:
-            attach(r, 'CB', [('S', None)] if rng.random() < 0.5 else [('S', None), ('O', 0)], None)
-    return seq, mol, expect, exact, unknown
+            attach(r, [(r, 'ND1')], [('H', None)], 'HIS-HD')
+        if resname == 'LYS' and r not in bridged and rng.random() < 0.7:
+            k3 = rng.random() < 0.5
+            attach(r, [(r, 'NZ')], [('H', None)] * (3 if k3 else 2), 'LYS-HZ3' if k3 else 'LYS-LSN')
+        if r in phos:
+            attach(r, [(r, 'OH')], [('P', None), ('O', 0), ('H', 1), ('O', 0), ('O', 0)], 'TYRPHOS')
+        if resname in ('ALA', 'SER', 'VAL', 'THR') and rng.random() < 0.2:
+            attach(r, [(r, 'CB')], [('S', None)] if rng.random() < 0.5 else [('S', None), ('O', 0)], None)
+        if resname == 'ASP' and rng.random() < 0.1:
+            attach(r, [(r, 'OD2')], [('F', None)], None)       # right place, wrong element
+    for a in att:
+        if a['res'] in annotated and not a.get('annot'):
+            silently.extend(a['atoms'])
+            a['silent'] = True
+    # RepairGraph (ISMAGS) needs seconds to minutes on residues with five or more extra atoms (phosphate, caps):
+    # those cases are flagged here the way RepairGraph flags (every attached atom PTM_atom, template names kept)
+    heavy = any(a['mod'] in ('TYRPHOS', 'CCAP-ter', 'NCAP-ter') for a in att)
+    if heavy and not annotated:
+        for a in att:
+            for k in a['atoms']:
+                mol.nodes[k]['PTM_atom'] = True
+    return seq, mol, att, silently, annotated, (not heavy or bool(annotated))
+
+
+def charmm_spec(mol, mods):
+    """the molecule (as RepairGraph leaves it) and the library as a model spec; node keys of the modifications
+    become integers (`qmaps`)"""
+    atoms = []
+    for k in mol.nodes:
+        nd = mol.nodes[k]
+        attrs = {a: v for a, v in nd.items() if a not in SKIP_ATTRS and (v is None or isinstance(v, str))}
+        atoms.append([k, nd['resid'], int(bool(nd.get('PTM_atom', False))), int('modification' in nd),
+                      [mods.index(m) for m in nd.get('modifications', [])], attrs])
+    qmaps, mspecs = [], []
+    for m in mods:
+        qm = {nn: i for i, nn in enumerate(m.nodes)}
+        qmaps.append(qm)
+        mspecs.append({'name': m.name,
+                       'atoms': [[qm[nn], int(bool(m.nodes[nn].get('PTM_atom', False))),
+                                  {a: v for a, v in m.nodes[nn].items()
+                                   if a not in ('PTM_atom', 'replace') and (v is None or isinstance(v, str))},
+                                  m.nodes[nn].get('replace')] for nn in m.nodes],
+                       'edges': [[qm[u], qm[v]] for u, v in m.edges]})
+    return {'atoms': atoms, 'edges': [list(e) for e in mol.edges], 'mods': mspecs}, qmaps
+
+
+def translate_run(run, qmaps):
+    out = {'status': run['status'], 'records': run['records'], 'iters': []}
+    for it in run['iters']:
+        t = dict(it)
+        t['options'] = [(mi, [[(a, qmaps[mi][q]) for a, q in pl] for pl in pls]) for mi, pls in it['options']]
+        for f in ('used', 'result'):
+            t[f] = None if it[f] is None else [(mi, [(a, qmaps[mi][q]) for a, q in pl]) for mi, pl in it[f]]
+        out['iters'].append(t)
+    return out
 
 
 def run_charmm():
-    ff = copy.deepcopy(_vff.get_native_force_field('charmm'))
+    ff = charmm_ff()
+    mods = list(ff.modifications.values())
     rng = chk.rng('charmm')
-    n = 400 if chk.thorough else 25
+    n = 600 if chk.thorough else 36
+    rows = []
     for i in range(n):
-        seq, mol, expect, exact, unknown = charmm_case(rng, ff)
+        seq, mol, att, silently, annotated, use_repair = charmm_case(rng, ff)
         resid0 = {k: mol.nodes[k]['resid'] for k in mol.nodes}
-        rec = Recorder()
-        lg = logging.getLogger('vermouth')
-        lg.addHandler(rec)
         status = 'ok'
+        spec, qmaps, run = None, None, None
         flagged = []
         try:
-            mol = vermouth.RepairGraph().run_molecule(mol)
+            if use_repair:
+                mol = vermouth.RepairGraph().run_molecule(mol)
+            chk.count('charmm_through_RepairGraph' if use_repair else 'charmm_flagged_by_harness')
             flagged = [k for k in mol.nodes if mol.nodes[k].get('PTM_atom')]
-            canmod.CanonicalizeModifications().run_molecule(mol)
+            repaired = set(mol.nodes)
         except Exception as e:  # pylint: disable=broad-except
-            status = 'crash-' + type(e).__name__
-        finally:
-            lg.removeHandler(rec)
-        run = {'records': rec.records}
-        warned = set()
-        for w in warnings_of(run):
-            if w['type'] == 'unknown-input' and w['name'].startswith('vermouth') and w['level'] == logging.WARNING:
-                warned.update(w['atoms'] or [])
+            status = 'crash-repair-' + type(e).__name__
+        if status == 'ok':
+            spec, qmaps = charmm_spec(mol, mods)
+            mol0 = mol.copy()
+            run = run_real(spec, mods, mol)
+            status = run['status']
         errs = []
-        if status != 'ok':
+        impl, ln = status, line('charmm', seq, [[a['atoms'], a['mod']] for a in att], sorted(annotated))
+        if run is None or status != 'ok':
             errs.append('RepairGraph + CanonicalizeModifications raised %s on %s' % (status, seq))
         else:
-            want_flagged = sorted([k for k, _ in exact] + unknown)
+            trun = translate_run(run, qmaps)
+            given = [[[[list(q) for q in p] for p in pls] for _, pls in it['options']] for it in trun['iters']]
+            sortmods = int(any(len(it['used'] or []) >= 2 for it in run['iters'])
+                           or sum(1 for it in run['iters'] if it['used']) >= 1 and any(
+                               len([g for g in it['groups'] if any(spec_mods_of(spec, a) for a in g[0])]) >= 2
+                               for it in run['iters']))
+            ln = proto_line(spec, given, sortmods)
+            impl = impl_canon(spec, mods, mol, trun, sortmods)
+            errs += oracle(spec, mods, mol0, mol, run)
+            warned = set()
+            for w in warnings_of(run):
+                if w['type'] == 'unknown-input' and w['name'].startswith('vermouth') and w['level'] == logging.WARNING:
+                    warned.update(w['atoms'] or [])
+            # expectations from the construction
+            for k in silently:
+                if k in repaired:
+                    errs.append('extra atom %d of a residue with a requested modification survived RepairGraph' % k)
+            live = [a for a in att if not a.get('silent')]
+            want_flagged = sorted(k for a in live for k in a['atoms'])
             if sorted(flagged) != want_flagged:
                 errs.append('RepairGraph flagged %s, attachments are %s' % (sorted(flagged), want_flagged))
-            bad_res = {resid0[k] for k in unknown}
-            for k, modname in exact:
-                if k not in mol.nodes:
-                    # identification is all-or-nothing per group of residues: next to an unknown
-                    # attachment on the same residue the atoms may be removed, with the warning
-                    if resid0[k] not in bad_res:
-                        errs.append('atom %d of a %s attachment was removed' % (k, modname))
-                    elif k not in warned:
-                        errs.append('atom %d of a %s attachment was removed without warning' % (k, modname))
-                    continue
-                nd = mol.nodes[k]
-                names = [m.name for m in nd.get('modifications', [])]
-                hit = [m for m in nd.get('modifications', []) if m.name.startswith(modname)]
-                if not hit:
-                    errs.append('atom %d of a %s attachment is labelled %s' % (k, modname, names))
-                    continue
-                ok_name = any(nd['atomname'] == (m.nodes[q].get('replace', {}).get('atomname', m.nodes[q]['atomname']))
-                              and m.nodes[q].get('PTM_atom') and m.nodes[q].get('element') == nd['element']
-                              for m in hit for q in m.nodes)
-                if not ok_name:
-                    errs.append('atom %d (%s) carries name %r which is no added atom of %s'
-                                % (k, nd['element'], nd['atomname'], [m.name for m in hit]))
-            for r, wanted in expect.items():
-                if r in bad_res:
-                    continue
-                for k in mol.nodes:
-                    if mol.nodes[k]['resid'] == r:
-                        names = {m.name for m in mol.nodes[k].get('modifications', [])}
-                        if not all(any(x.startswith(w) for x in names) for w in wanted):
-                            errs.append('atom %d of residue %d is labelled %s, expected %s' % (k, r, sorted(names), sorted(wanted)))
-                            break
-            for k in unknown:
-                if k in mol.nodes:
-                    errs.append('unknown attachment atom %d is still in the molecule' % k)
-                elif k not in warned:
-                    errs.append('unknown attachment atom %d was removed without an unknown-input warning' % k)
+            bad_keys = {a['key'] for a in live if a['mod'] is None}
+            for a in live:
+                for k in a['atoms']:
+                    if a['mod'] is None:
+                        if k in mol.nodes:
+                            errs.append('unknown attachment atom %d is still in the molecule' % k)
+                        elif k not in warned:
+                            errs.append('unknown attachment atom %d was removed without an unknown-input warning' % k)
+                        continue
+                    if k not in mol.nodes:
+                        # identification is all-or-nothing per iteration (groups with the same anchor-resid key)
+                        if a['key'] not in bad_keys:
+                            errs.append('atom %d of a %s attachment was removed' % (k, a['mod']))
+                        elif k not in warned:
+                            errs.append('atom %d of a %s attachment was removed without warning' % (k, a['mod']))
+                        continue
+                    nd = mol.nodes[k]
+                    hit = [m for m in nd.get('modifications', []) if m.name == a['mod']]
+                    if not hit:
+                        errs.append('atom %d of a %s attachment is labelled %s'
+                                    % (k, a['mod'], [m.name for m in nd.get('modifications', [])]))
+                        continue
+                    ok_name = any(nd['atomname'] == (m.nodes[q].get('replace', {}).get('atomname', m.nodes[q]['atomname']))
+                                  and m.nodes[q].get('PTM_atom') and m.nodes[q].get('element') == nd['element']
+                                  for m in hit for q in m.nodes)
+                    if not ok_name:
+                        errs.append('atom %d (%s) carries name %r which is no added atom of %s'
+                                    % (k, nd['element'], nd['atomname'], a['mod']))
+                if a['mod'] is not None and a['key'] not in bad_keys:
+                    for k in mol.nodes:
+                        if mol.nodes[k]['resid'] in a['key']:
+                            if a['mod'] not in {m.name for m in mol.nodes[k].get('modifications', [])}:
+                                errs.append('atom %d of residue %d is not labelled %s' % (k, mol.nodes[k]['resid'], a['mod']))
+                                break
+            for a in live:
+                if a['mod'] == 'TYRPHOS' and a['key'] not in bad_keys:
+                    hh = [k for k in mol.nodes if mol.nodes[k]['resid'] == a['res'] and mol.nodes[k].get('_old_atomname') == 'HH']
+                    if len(hh) != 1 or mol.nodes[hh[0]]['atomname'] is not None:
+                        errs.append('TYRPHOS on residue %d: HH was not renamed to None (replace)' % a['res'])
             pernames = {}
             for k in mol.nodes:
-                pernames.setdefault((mol.nodes[k]['resid'], mol.nodes[k]['atomname']), []).append(k)
+                if mol.nodes[k]['atomname'] is not None:
+                    pernames.setdefault((mol.nodes[k]['resid'], mol.nodes[k]['atomname']), []).append(k)
             dup = [v for v in pernames.values() if len(v) > 1]
             if dup:
                 errs.append('two atoms of one residue carry the same name after canonicalisation: %s' % dup[:2])
-        chk.count('charmm_' + ('unknown' if unknown else 'exact' if exact else 'plain'))
-        inp = line('charmm', seq, sorted([k, m] for k, m in exact), unknown)
-        chk.case('charmm-%d' % i, inp, status, None, errs, bool(exact or unknown))
+            for it in run['iters']:
+                chk.count('charmm_iter_' + ('unknown' if it['result'] is None else 'identified'))
+                if it['result'] and len(it['result']) >= 2:
+                    chk.count('charmm_two_modifications_one_iteration')
+                if it['used']:
+                    chk.count('charmm_annotated_branch')
+                if len(set(it['key'])) >= 2:
+                    chk.count('charmm_spans_residues')
+        for a in att:
+            chk.count('charmm_' + (a['mod'] or 'unknown') + ('_annotated' if a.get('annot') else '')
+                      + ('_removed_by_repair_graph' if a.get('silent') else ''))
+        rows.append(('charmm-%d' % i, ln, impl, errs, bool(att), run is not None and status == 'ok'))
+    models = chk.drv.ask([r[1] for r in rows if r[5]]) if chk.lean_ok else []
+    mi = iter(models)
+    for cid, ln, impl, errs, nontriv, has_model in rows:
+        model = next(mi, None) if has_model and chk.lean_ok else None
+        chk.case(cid, ln, impl, model, errs, nontriv)
 
 
 run_charmm()
